@@ -23,7 +23,7 @@ pub fn info() -> CheckInfo {
         rule: "random x86-64 P-Code projects in the extractor's JSON format (2-6 functions built by an instruction-level assembler: prologue/epilogue, stack slots, globals via implicit loads, sub-register ops, flags, if/else, while/do-while loops, switch via BRANCHIND with jump-table hints, direct/indirect/recursive calls, no-return calls, stack canary, jumps into blocks of other functions, blocks listed in two functions, long dependent arithmetic chains, ~40 libc extern symbols (20 kernel symbols for modules) with calling conventions) plus a generated ELF (ET_EXEC or PIE ET_DYN with rodata/data+bss/text PT_LOADs, optional section table with .debug_*; kernel-module ET_REL variant) and one fixed hand-made minimal pair, run through the real CLI with default selection, all checks, two random --partial subsets (incl. CWE78 and the pointer-inference based checks) and 3/20 runs under valgrind memcheck. Oracle: exit status 0, nothing that looks like a panic on stderr, stdout parses as a JSON array, each element names a module listed by --module-versions (CWE125/CWE787 are documented variants of CWE119, CWE415 of CWE416) with that module's version and has correctly typed addresses/tids/symbols/other/description, array sorted by the independent comparator (name, version, addresses, tids, symbols, other, description; byte-wise lexicographic). non-trivial = the run printed >= 1 warning and the program has >= 1 loop; distinct = hash of (P-Code JSON, argument list)",
         assumptions: &[
             "the generated P-Code/ELF pairs are inside the extractor's output language: unique TIDs per term (except deliberately shared blocks, which Ghidra emits for overlapping function bodies), every register named in register_properties, libc extern symbols carry their real fixed-parameter signatures, blocks end in [BRANCH] | [CBRANCH,BRANCH] | [CALL] | [CALLIND] | [BRANCHIND] | [RETURN], functions stay below ~45 blocks",
-            "a watchdog of 60 s (valgrind: 45 s quick / 600 s thorough) per run; a firing watchdog is inconclusive, never a violation; inputs that would start after the tier's wall-clock budget are skipped and counted",
+            "termination is judged as bounded progress: a watchdog of 60 s (valgrind: 45 s quick / 600 s thorough) per run; when it fires the CPU time of the process is read from /proc - at least 45 s of CPU time consumed (normal runs take about 10 ms) is reported as non-termination, anything less (a starved process on a loaded machine) and every valgrind timeout is inconclusive; inputs that would start after the tier's wall-clock budget are skipped and counted",
             "the CLI binary in <harness>/target-cli/release is the one run_check.sh builds from the tree under test",
         ],
         run,
@@ -1594,6 +1594,33 @@ impl Fg {
         self.asm.emit(vec![op1("COPY", r8("RAX"), r8("RAX"))]);
     }
 
+    /// `if (cond) for (;;);` compiled as a chain of empty blocks: a jump-only block leading into a jump-only block
+    /// that leads into a jump-only self-loop (or a two-block cycle).
+    fn t_hang(&mut self, pg: &mut Pg) {
+        let k = pg.rng.usize_below(6);
+        let c = pg.rng.below(4);
+        self.cmp_slot_imm(pg, k, c);
+        let skip = self.asm.label();
+        self.jcc(pg, skip);
+        let fail = self.asm.label();
+        let hang = self.asm.label();
+        self.asm.push(vec![], Fin::Jmp(fail));
+        self.asm.bind(fail);
+        self.asm.push(vec![], Fin::Jmp(hang));
+        self.asm.bind(hang);
+        if pg.rng.chance(1, 3) {
+            let hang2 = self.asm.label();
+            self.asm.push(vec![], Fin::Jmp(hang2));
+            self.asm.bind(hang2);
+            self.asm.push(vec![], Fin::Jmp(hang));
+        } else {
+            self.asm.push(vec![], Fin::Jmp(hang));
+        }
+        self.asm.bind(skip);
+        self.asm.emit(vec![op1("COPY", r8("RAX"), r8("RAX"))]);
+        pg.feat("empty-block-chain-into-endless-loop");
+    }
+
     /// A tail shared with other functions: a block of this function's body that this function itself jumps over; it
     /// dereferences the value in RAX and falls through into the following code.
     fn t_landing(&mut self, pg: &mut Pg) {
@@ -1670,7 +1697,9 @@ impl Fg {
             37 => self.t_switch(pg, depth),
             _ => {
                 let r2 = pg.rng.below(if pg.opts.order_bias { 3 } else { 8 });
-                if r2 == 0 && self.fidx + 1 < pg.n_funcs {
+                if r2 >= 6 {
+                    self.t_hang(pg)
+                } else if r2 == 0 && self.fidx + 1 < pg.n_funcs {
                     self.t_landing(pg)
                 } else if r2 == 1 {
                     if !self.t_alloc_fork(pg) {
@@ -2155,7 +2184,10 @@ pub fn build_elf(lay: &Layout, rodata: &[u8], data: &[u8], text_len: u64, debug_
     // pseudo code bytes (never interpreted by the analyzer)
     let text: Vec<u8> = (0..text_len).map(|i| (mix(i, 0x7e) & 0xff) as u8).collect();
     let mut secs: Vec<Sec> = Vec::new();
-    secs.push(Sec { name: ".rodata", sh_type: 1, flags: SHF_ALLOC, addr: lay.rodata_base - delta, bytes: rodata.to_vec(), size: rodata.len() as u64, align: 16 });
+    // In a kernel module `.rodata` is the first loaded section (offset 0), so any sh_addralign gives the same layout:
+    // vary it, including 1 and 0, which both mean "no alignment constraint" (ELF specification).
+    let rodata_align = if lay.kind == ElfKind::Lkm { [16u64, 8, 16, 1, 0, 32, 4][((text_len / 4) % 7) as usize] } else { 16 };
+    secs.push(Sec { name: ".rodata", sh_type: 1, flags: SHF_ALLOC, addr: lay.rodata_base - delta, bytes: rodata.to_vec(), size: rodata.len() as u64, align: rodata_align });
     let modinfo_sec = || {
         let mut m = b"license=GPL\0author=vmon\0name=gen\0".to_vec();
         m.resize(MODINFO_LEN as usize, 0);
@@ -2391,6 +2423,10 @@ pub struct CliOut {
     pub stdout: Vec<u8>,
     pub stderr: String,
     pub timed_out: bool,
+    /// CPU time (user + system, all threads) the process had consumed when the watchdog fired
+    pub cpu_ms_at_timeout: Option<u64>,
+    /// the wall-clock budget of the run
+    pub timeout_ms: u64,
     pub spawn_error: Option<String>,
     /// payloads of the `module_run` events, in order
     pub events: Vec<String>,
@@ -2414,6 +2450,25 @@ pub fn write_input(pcode: &str, elf: &[u8]) -> Result<InputFiles, String> {
 }
 
 /// Run `cwe_checker <elf> --pcode-raw <json> --json --quiet [extra..]` with a watchdog.
+/// CPU time (utime + stime of /proc/<pid>/stat, which covers all threads) in milliseconds.
+fn proc_cpu_ms(pid: u32) -> Option<u64> {
+    let stat = std::fs::read_to_string(format!("/proc/{pid}/stat")).ok()?;
+    // the command name (field 2) may contain spaces: continue after the closing parenthesis
+    let rest = &stat[stat.rfind(')')? + 1..];
+    let f: Vec<&str> = rest.split_whitespace().collect();
+    // rest starts with field 3 (state); utime and stime are fields 14 and 15
+    let utime: u64 = f.get(11)?.parse().ok()?;
+    let stime: u64 = f.get(12)?.parse().ok()?;
+    Some((utime + stime) * 10) // USER_HZ is 100 on Linux
+}
+
+/// A run stopped by the watchdog counts as non-termination (and not as a slow machine) when the process itself had
+/// been computing for at least three quarters of its wall-clock budget: 45 s of CPU time for inputs whose normal run
+/// takes some ten milliseconds (450 s under valgrind).
+pub fn hang_by_cpu_time(out: &CliOut) -> bool {
+    out.timed_out && matches!(out.cpu_ms_at_timeout, Some(c) if c * 4 >= out.timeout_ms * 3)
+}
+
 pub fn run_cli(env: &CliEnv, files: &InputFiles, extra: &[String], opts: &RunOpts) -> CliOut {
     let n = TMP_COUNTER.fetch_add(1, Ordering::SeqCst);
     let ev_path = files.dir.path.join(format!("events-{n}.jsonl"));
@@ -2436,7 +2491,7 @@ pub fn run_cli(env: &CliEnv, files: &InputFiles, extra: &[String], opts: &RunOpt
         argv.push(e.into());
     }
     let timeout = opts.timeout.unwrap_or(Duration::from_secs(if opts.valgrind { 600 } else { 60 }));
-    let mut res = CliOut { exit: None, signal: None, stdout: Vec::new(), stderr: String::new(), timed_out: false, spawn_error: None, events: Vec::new(), wall_ms: 0 };
+    let mut res = CliOut { exit: None, signal: None, stdout: Vec::new(), stderr: String::new(), timed_out: false, cpu_ms_at_timeout: None, timeout_ms: timeout.as_millis() as u64, spawn_error: None, events: Vec::new(), wall_ms: 0 };
     let (fo, fe) = match (std::fs::File::create(&out_path), std::fs::File::create(&err_path)) {
         (Ok(a), Ok(b)) => (a, b),
         _ => {
@@ -2472,6 +2527,7 @@ pub fn run_cli(env: &CliEnv, files: &InputFiles, extra: &[String], opts: &RunOpt
             }
             Ok(None) => {
                 if start.elapsed() > timeout {
+                    res.cpu_ms_at_timeout = proc_cpu_ms(child.id());
                     let _ = child.kill();
                     let _ = child.wait();
                     res.timed_out = true;
@@ -2655,7 +2711,17 @@ pub fn judge_output(env: &CliEnv, out: &CliOut, what: &str, rep: &mut Report, ca
         return None;
     }
     if out.timed_out {
-        rep.inconclusive(&format!("watchdog:{what}"));
+        if hang_by_cpu_time(out) && what != "valgrind" {
+            rep.violation(
+                format!("{what}:no-termination"),
+                None,
+                format!("the analyzer was still running after {} s and had consumed {} s of CPU time by then (inputs of this size normally finish within some ten milliseconds); stopped by the watchdog", out.timeout_ms / 1000, out.cpu_ms_at_timeout.unwrap_or(0) / 1000),
+                case(),
+                size,
+            );
+        } else {
+            rep.inconclusive(&format!("watchdog:{what}"));
+        }
         return None;
     }
     if let Some(p) = panic_text(&out.stderr) {
@@ -2822,6 +2888,10 @@ fn check_input(env: &CliEnv, inp: &Input, rng: &mut Rng, rep: &mut Report, modes
         }
         let warnings = judge_output(env, &out, &what, rep, &case, size);
         rep.obs(&format!("run:{what}:{:?}", inp.kind));
+        if out.timed_out {
+            // do not spend another watchdog period per selection on the same input
+            break;
+        }
         if let Some(w) = warnings {
             rep.obs_n("warnings-seen", w.len() as u64);
             for x in &w {
